@@ -223,7 +223,7 @@ def decode_cases(ck: Check):
     long_seasons = [(2, 127), (2, 128), (2, 129), (2, 255), (2, 256), (2, 300), (3, 64), (3, 65), (4, 43), (4, 86),
                     (6, 26), (8, 19)]
     if not ck.quick:    # larger n: the list-based model needs O(games * days * n) steps
-        long_seasons += [(5, 64), (10, 29), (20, 14), (2, 33000)]
+        long_seasons += [(5, 64), (10, 29), (20, 14), (2, 1000)]
     for n, r in long_seasons:
         sp, bp = impl_blueprint(n, r)
         days = (n - 1) * r
